@@ -12,6 +12,9 @@ Verdict(e) ==
   ELSE IF e.crc_appended # <<0, 0, 0, 0>> THEN "residue-nonzero"
   ELSE IF ~e.input_same THEN "input-or-surrounding-bytes-modified"
   ELSE IF ~e.earlier_same THEN "checksum-returned-earlier-changed-by-a-later-call"
+  ELSE IF Len(e.edited) # Len(e.data) THEN "harness-bad-edit"
+  ELSE IF e.crc_edited # Crc32(e.edited) THEN "crc-value-after-the-buffer-was-edited-in-place"
+  ELSE IF e.crc_restored # e.crc THEN "crc-value-after-the-edit-was-undone"
   ELSE IF ~e.par_same THEN "result-differs-when-calls-on-separate-strings-overlap-in-time"
   ELSE ""
 Init == l = 1
